@@ -118,17 +118,23 @@ pub fn gen_locale_tokens(r: &mut Rng) -> Vec<Vec<u8>> {
     // one input in six is "rich": 4..10 members per container instead of 0..3
     let rich = r.chance(1, 6);
     let cnt = |r: &mut Rng, small: usize| if rich { 4 + r.below(7) } else { r.below(small) };
-    if rich { for _ in 0..cnt(r, 0) { let v = gen_variant(r); t.push(v); } }
+    if rich {
+        let first = t.len();
+        for _ in 0..cnt(r, 0) { let v = gen_variant(r); t.push(v); }
+        // repeats of earlier variants, anywhere after them (X, Y, X patterns)
+        for _ in 0..r.below(4) { if t.len() > first { let v = t[first + r.below(t.len() - first)].clone(); t.push(v); } }
+    }
     if r.chance(1, 2) {
         let mut u = vec![b"u".to_vec()];
         for _ in 0..cnt(r, 3) { u.push(word(r, ALNUM, 3, 8)); }
+        if rich { for _ in 0..r.below(4) { if u.len() > 1 { let v = u[1 + r.below(u.len() - 1)].clone(); u.push(v); } } }
         let mut keys: Vec<Vec<u8>> = Vec::new();
         for _ in 0..cnt(r, 4) {
             let k = gen_ukey(r);
             if keys.contains(&k) { continue; }
             keys.push(k.clone());
             u.push(k);
-            for _ in 0..r.below(3) { u.push(gen_type(r)); }
+            for _ in 0..(if rich { r.below(5) } else { r.below(3) }) { u.push(gen_type(r)); }
         }
         if u.len() > 1 { exts.push(u); }
     }
@@ -141,7 +147,7 @@ pub fn gen_locale_tokens(r: &mut Rng) -> Vec<Vec<u8>> {
             if keys.contains(&k) { continue; }
             keys.push(k.clone());
             tt.push(k);
-            for _ in 0..(1 + r.below(2)) { tt.push(gen_type(r)); }
+            for _ in 0..(1 + if rich { r.below(4) } else { r.below(2) }) { tt.push(gen_type(r)); }
         }
         if tt.len() > 1 { exts.push(tt); }
     }
@@ -355,7 +361,20 @@ fn ev_value(log: &mut Log, loc: &Locale) {
         let (l, s, r, v, e) = loc.clone().into_parts();
         ExtensionsMap::from_str(&e).map(|em| Locale::from_parts(l, s, r, &v, Some(em)))
     }), Ok(Ok(ref l3)) if l3 == loc);
-    log.ev(json!({"op":"value","st": proj_loc(loc),"ser": b(&ser),"reparse_ok": reparse_ok,"ext_reparse_ok": ext_ok,"parts_ok": parts_ok}));
+    // two values with the same canonical text must be equal, hash equally and compare Equal (C12)
+    let same_text_equal = match guard(|| Locale::from_bytes(ser.as_bytes())) {
+        Ok(Ok(ref l2)) if l2.to_string() == ser => l2 == loc && hash_of(l2) == hash_of(loc) && l2.cmp(loc) == std::cmp::Ordering::Equal
+            && l2.id == loc.id && hash_of(&l2.id) == hash_of(&loc.id) && l2.extensions == loc.extensions,
+        _ => true,
+    };
+    // == &str holds for the canonical text only: no proper prefix, no extension of it
+    let ids = loc.id.to_string();
+    let foreign_str_eq = matches!(guard(|| {
+        (0..ids.len()).any(|n| ids.is_char_boundary(n) && loc.id == &ids[..n])
+            || loc.id == format!("{}-", ids).as_str() || loc.id == format!("{}-x", ids).as_str() || loc.id == ids.to_ascii_uppercase().as_str() && ids.to_ascii_uppercase() != ids
+    }), Ok(true));
+    log.ev(json!({"op":"value","st": proj_loc(loc),"ser": b(&ser),"reparse_ok": reparse_ok,"ext_reparse_ok": ext_ok,"parts_ok": parts_ok,
+                  "same_text_equal": same_text_equal, "foreign_str_eq": foreign_str_eq}));
 }
 
 // ---- argument pools for histories: valid, boundary, invalid ------------------------------------
@@ -364,6 +383,11 @@ fn arg_sub(r: &mut Rng, valid: &[&str], invalid: &[&str]) -> Vec<u8> {
     v = dictify(r, v);
     if r.chance(1, 4) { v = v.to_ascii_uppercase(); }
     if r.chance(1, 25) { v = mutate(r, v); }
+    if r.chance(1, 120) {
+        // an over-long argument whose length is a valid length plus a multiple of 256
+        let l = *r.pick(&[1usize, 2, 3, 5, 8]) + *r.pick(&[256usize, 512]);
+        v = (0..l).map(|_| *r.pick(ALNUM)).collect();
+    }
     v
 }
 
@@ -432,7 +456,33 @@ fn gen_long(r: &mut Rng) -> Vec<u8> {
         v
     };
     let mut toks: Vec<Vec<u8>> = vec![b"en".to_vec()];
-    match r.below(6) {
+    let kind = r.below(9);
+    if kind == 6 {
+        // thousands of consecutive separators (recursion per empty subtag, quadratic rescans)
+        let run = *r.pick(&[3_000usize, 20_000, 120_000]);
+        let mut v = b"en".to_vec();
+        if r.chance(1, 2) { v.extend_from_slice(b"-u-foo"); }
+        v.extend(std::iter::repeat(if r.chance(1, 2) { b'-' } else { b'_' }).take(run));
+        if r.chance(1, 2) { v.extend_from_slice(b"x-a"); }
+        return v;
+    }
+    if kind >= 7 {
+        // one subtag whose length is a valid length plus a multiple of 256 / 65536 (length counters that wrap)
+        let base = *r.pick(&[1usize, 2, 3, 4, 5, 8, 9]);
+        let l = base + *r.pick(&[256usize, 256, 512, 65_536]);
+        let long: Vec<u8> = (0..l).map(|_| *r.pick(ALNUM)).collect();
+        let mut toks: Vec<Vec<u8>> = match r.below(6) {
+            0 => vec![long],
+            1 => vec![b"en".to_vec(), long],
+            2 => vec![b"en".to_vec(), b"u".to_vec(), long],
+            3 => vec![b"en".to_vec(), b"u".to_vec(), b"ca".to_vec(), long],
+            4 => vec![b"en".to_vec(), b"t".to_vec(), b"h0".to_vec(), long],
+            _ => vec![b"en".to_vec(), b"x".to_vec(), long],
+        };
+        if r.chance(1, 3) { toks.push(b"foo".to_vec()); }
+        return noisy_join(r, &toks);
+    }
+    match kind {
         0 => { for i in 0..n { let df = r.chance(1, 2); let v = uniq(r, i, df); toks.push(v); } }
         1 => { toks.push(b"u".to_vec()); for i in 0..n { let v = uniq(r, i, false); toks.push(v); } }
         2 => { toks.push(b"u".to_vec()); toks.push(b"ca".to_vec()); for i in 0..n { let v = uniq(r, i, false); toks.push(v); } }
@@ -445,7 +495,7 @@ fn gen_long(r: &mut Rng) -> Vec<u8> {
 
 fn drive_parse(r: &mut Rng, n: usize, log: &mut Log) {
     // a handful of long inputs per run (each is one event; validation cost grows with length)
-    for _ in 0..4.min(n / 200) {
+    for _ in 0..6.min(n / 200) {
         let input = gen_long(r);
         ev_li_parse(log, &input);
         ev_loc_parse(log, &input);
@@ -573,6 +623,7 @@ fn gen_grow_shrink(r: &mut Rng) -> Vec<Value> {
         add(r, &items[i], &mut ops, &sofar);
         sofar.push(items[i].clone());
         if r.chance(1, 2) { let q = sofar[r.below(sofar.len())].clone(); query(r, &q, &mut ops); }
+        if r.chance(1, 4) && kind != 4 { let q = sofar[r.below(sofar.len())].clone(); let before: Vec<Vec<u8>> = Vec::new(); add(r, &q, &mut ops, &before); if kind == 3 { sofar.push(q); } }
         if r.chance(1, 6) { ops.push(json!({"op":"reparse","s":[],"key":[],"vals":[]})); }
     }
     // remove in another random order, re-adding one now and then (add-remove-add patterns)
@@ -627,8 +678,15 @@ fn drive_hist(r: &mut Rng, n: usize, log: &mut Log, likely: bool) {
 }
 
 fn drive_meta(r: &mut Rng, n: usize, log: &mut Log) {
-    for _ in 0..n {
-        let toks = gen_locale_tokens(r);
+    for it in 0..n {
+        let mut toks = gen_locale_tokens(r);
+        if it % 25 == 0 {
+            // a long identifier (200..300 bytes): transformations that repeat a member cross length thresholds
+            toks = gen_li_tokens(r);
+            let want = 200 + r.below(100);
+            while toks.iter().map(|t| t.len() + 1).sum::<usize>() < want { let v = gen_variant(r); toks.push(v); }
+            if r.chance(1, 2) { toks.push(b"u".to_vec()); for _ in 0..(3 + r.below(6)) { toks.push(word(r, ALNUM, 3, 8)); } }
+        }
         let mut a_toks = toks.clone();
         if r.chance(1, 4) {
             // make it ill-formed first: the transformed version must fail the same way
